@@ -213,3 +213,43 @@ M("C06", "M19-days-not-seconds", (BR, "        years = (now - self._last_accrual
 E("C06", "E1-np-power", (BR, "        rate_period = (1 + cagr) ** years - 1", "        growth = (1 + cagr) ** years\n        rate_period = growth - 1"))
 E("C06", "E2-floor-swapped", (BR, "        if amount > 0. and accrued_interest < 0.:", "        if accrued_interest < 0 and 0 < amount:"))
 E("C06", "E3-years-inline", (BR, "        years = (now - self._last_accrual).total_seconds() / SECONDS_IN_YEAR", "        elapsed = (now - self._last_accrual).total_seconds()\n        years = elapsed / (365 * 24 * 3600)"))
+
+# ------------------------------------------------------------------ C03
+M("C03", "M1-mid-price-sizing", (AL, "            avg_price = broker.exchange[contract].acq_price(weight)", "            avg_price = broker.exchange[contract].mid_price"), "S1.weights-to-contracts")
+M("C03", "M2-no-multiplier", (AL, "            nr_contracts[contract] = weight * nlv / avg_price / contract.multiplier", "            nr_contracts[contract] = weight * nlv / avg_price"), "S1.weights-to-contracts")
+M("C03", "M3-sub-filtered", (AL, "            for k, v in other.items():\n                mapping[k] = mapping.get(k, 0) - v", "            for k, v in other.items():\n                if k in mapping:\n                    mapping[k] = mapping.get(k, 0) - v"), "S2.subtraction-covers-all")
+M("C03", "M4-relative-default", (RB, "        if self.absolute:\n            imbalance -= NrContracts(broker.holdings_quantity)", "        if not self.absolute:\n            imbalance -= NrContracts(broker.holdings_quantity)"), "S2.imbalance")
+M("C03", "M5-sizing-before-accrual", (BR, "        rebalancing.profit_on_idle_cash = self.accrued_interest(rebalancing.time, True)\n        rebalancing.context_pre = self.context()\n        rebalancing.trades = rebalancing.make_trades(self)\n", "        rebalancing.trades = rebalancing.make_trades(self)\n        rebalancing.profit_on_idle_cash = self.accrued_interest(rebalancing.time, True)\n        rebalancing.context_pre = self.context()\n"), "S4")
+M("C03", "M6-fee-adjusted-price", (AL, "            avg_price = broker.exchange[contract].acq_price(weight)\n", "            avg_price = broker.exchange[contract].acq_price(weight)\n            avg_price *= 1 + broker.fees.proportional\n"), "S1.weights-to-contracts")
+M("C03", "M7-cached-target", [(RB, "        imbalance = self.allocation._to_nr_contracts(broker)\n", "        if getattr(self, '_target', None) is None:\n            self._target = self.allocation._to_nr_contracts(broker)\n        imbalance = self._target\n")], "S4")
+M("C03", "M8-short-side-wrong", (AL, "            avg_price = broker.exchange[contract].acq_price(weight)", "            avg_price = broker.exchange[contract].acq_price(abs(weight))"), "S1.weights-to-contracts")
+M("C03", "M9-nr-contracts-scaled", (AL, "        self.\"\"\"\n        return NrContracts(self)", "        self.\"\"\"\n        return NrContracts({k: int(v) for k, v in self.items()})"), "S5.identity-NrContracts")
+M("C03", "M10-two-trades", (RB, "            trades.append(trade)\n", "            trades.append(trade)\n            if contract not in self.allocation:\n                trades.append(trade)\n"), "S3.one-append-per-item")
+M("C03", "M11-sub-default-self", (AL, "                mapping[k] = mapping.get(k, 0) - v", "                mapping[k] = mapping.get(k, v) - v"), "S2.subtraction-covers-all")
+M("C03", "M12-holdings-margins-subtracted", (RB, "            imbalance -= NrContracts(broker.holdings_quantity)", "            imbalance -= NrContracts(broker.holdings_margins)"), "S2.imbalance-absolute")
+M("C03", "M13-weights-nlv-no-raise", (AL, "        nr_contracts = dict()\n        nlv = broker.net_liquidation_value()", "        nr_contracts = dict()\n        nlv = broker._initial_deposit"), "S1.weights-to-contracts")
+M("C03", "M14-weight-price-other-side", (AL, "            prices = order_book.acq_price(quantity)", "            prices = order_book.liq_price(quantity)"), "S1.contracts-to-weights")
+E("C03", "E1-reordered", (AL, "            nr_contracts[contract] = weight * nlv / avg_price / contract.multiplier", "            nr_contracts[contract] = (nlv * weight) / (contract.multiplier * avg_price)"))
+E("C03", "E2-sub-local", (AL, "                mapping[k] = mapping.get(k, 0) - v", "                held = mapping.get(k, 0)\n                mapping[k] = held - v"))
+E("C03", "E3-order-book-local", (AL, "            avg_price = broker.exchange[contract].acq_price(weight)", "            book = broker.exchange[contract]\n            avg_price = book.acq_price(weight)"))
+
+# ------------------------------------------------------------------ C07
+M("C07", "M1-pre-snapshot-after-trades", (BR, "        rebalancing.context_pre = self.context()\n        rebalancing.trades = rebalancing.make_trades(self)\n        for trade in rebalancing.trades:\n            self.transact(trade)\n", "        rebalancing.trades = rebalancing.make_trades(self)\n        for trade in rebalancing.trades:\n            self.transact(trade)\n        rebalancing.context_pre = self.context()\n"), "S4")
+M("C07", "M2-second-checkpoint", (BR, "        self.track_record._checkpoint(rebalancing)", "        self.track_record._checkpoint(rebalancing)\n        if rebalancing.trades:\n            self.track_record._checkpoint(rebalancing)"), "S1.one-checkpoint-per-rebalance")
+M("C07", "M3-reward-post-nlv", (RW, "class RewardSimpleReturn(AbstractReward):\n    \"\"\"Simple change of the net liquidation value of the account at each\n    step.\"\"\"\n\n    def calculate(self, env: \"tradingenv.env.TradingEnv\") -> float:\n        nlv_last_rebalancing = env.broker.track_record[-1].context_pre.nlv", "class RewardSimpleReturn(AbstractReward):\n    \"\"\"Simple change of the net liquidation value of the account at each\n    step.\"\"\"\n\n    def calculate(self, env: \"tradingenv.env.TradingEnv\") -> float:\n        nlv_last_rebalancing = env.broker.track_record[-1].context_post.nlv"), "S6")
+M("C07", "M4-context-live-margins", (BR, "            margins=self.holdings_margins,", "            margins=self._holdings_margins,"), "S5.context-margins")
+M("C07", "M5-pre-post-swapped", (TK, "            if before_rebalancing:\n                context = rebalancing.context_pre\n            else:\n                context = rebalancing.context_post\n            data[time] = context.nlv", "            if before_rebalancing:\n                context = rebalancing.context_post\n            else:\n                context = rebalancing.context_pre\n            data[time] = context.nlv"), "S7.nlv-pre-post-selection")
+M("C07", "M6-checkpoint-wallclock", (TK, "        time = rebalancing.time\n        if isinstance(time, pd.Timestamp):", "        time = datetime.now()\n        if isinstance(time, pd.Timestamp):"), "S3.key-is-request-time")
+M("C07", "M7-no-duplicate-guard", (TK, "        if time in self._time:\n            raise ValueError(\n                \"All RebalancingResponse must have different timestamps. \"\n                \"Duplicated timestamp found: {}\".format(time)\n            )\n", ""), "S2.duplicate-raises")
+M("C07", "M8-stamp-before-latent", (EN, "        self._process_latent_events()\n        rebalancing = self.action_space.make_rebalancing_request(action, self.now(), self.broker)", "        now = self.now()\n        self._process_latent_events()\n        rebalancing = self.action_space.make_rebalancing_request(action, now, self.broker)"), "S3")
+M("C07", "M9-reward-before-market-events", (EN, "        self._process_nonlatent_events()\n        reward = self._reward.calculate(self)\n", "        reward = self._reward.calculate(self)\n        self._process_nonlatent_events()\n"), "S6.reward-after-market-events")
+M("C07", "M10-log-reward-no-scale", (RW, "        ret /= self.scale\n", ""), "S6.reward-formula")
+M("C07", "M11-pnl-ratio", (RW, "        return float(nlv_now - nlv_last_rebalancing)", "        return float(nlv_now - nlv_last_rebalancing) / nlv_last_rebalancing"), "S6.reward-formula")
+M("C07", "M12-map-only-when-trades", (TK, "        self._time.append(time)\n        self._rebalancing[time] = rebalancing", "        self._time.append(time)\n        if len(rebalancing.trades) != 0 or not self._rebalancing:\n            self._rebalancing[time] = rebalancing"), "S1.checkpoint-extends-request-map")
+M("C07", "M13-reward-first-entry", (RW, "class RewardLogReturn(AbstractReward):\n    \"\"\"Log change of the net liquidation value of the account at each step.\"\"\"\n\n    def calculate(self, env: \"tradingenv.env.TradingEnv\") -> float:\n        nlv_last_rebalancing = env.broker.track_record[-1].context_pre.nlv", "class RewardLogReturn(AbstractReward):\n    \"\"\"Log change of the net liquidation value of the account at each step.\"\"\"\n\n    def calculate(self, env: \"tradingenv.env.TradingEnv\") -> float:\n        nlv_last_rebalancing = env.broker.track_record[0].context_pre.nlv"), "S6")
+M("C07", "M14-costs-post", (TK, "            cost_of_commissions[time] = sum(trade.cost_of_commissions for trade in rebalancing.trades)", "            cost_of_commissions[time] = sum(trade.cost_of_spread for trade in rebalancing.trades)"), "S7.costs-cost_of_commissions")
+M("C07", "M15-clip-before-scale", (RW, "        ret /= self.scale\n        ret = np.clip(ret, -self.clip, +self.clip)", "        ret = np.clip(ret, -self.clip, +self.clip)\n        ret /= self.scale"), "S6.reward-formula")
+M("C07", "M16-env-second-rebalance", (EN, "        self._process_nonlatent_events()\n        reward =", "        self._process_nonlatent_events()\n        if self._steps_delay < 0:\n            self.broker.rebalance(rebalancing)\n        reward ="), None)
+M("C07", "M17-quantity-live", (BR, "        return dict(self._holdings_quantity)", "        return self._holdings_quantity"), "S5.holdings_quantity-returns-copy")
+E("C07", "E1-context-from-locals", (BR, "        return Context(\n            nlv=self.net_liquidation_value(),", "        return Context(\n            nlv=self.net_liquidation_value(raise_if_broke=True),"))
+E("C07", "E2-reward-inline", (RW, "        nlv_last_rebalancing = env.broker.track_record[-1].context_pre.nlv\n        nlv_now = env.broker.net_liquidation_value()\n        return float(nlv_now - nlv_last_rebalancing)", "        broker = env.broker\n        before = broker.track_record[-1].context_pre.nlv\n        return float(broker.net_liquidation_value() - before)"))
